@@ -2,6 +2,7 @@ package props
 
 import (
 	"fmt"
+	"github.com/AdguardTeam/urlfilter/filterlist"
 	"strings"
 
 	"github.com/AdguardTeam/urlfilter"
@@ -149,12 +150,37 @@ func c16Observe(c *core.Ctx, mask int, other string, want rules.CosmeticOption) 
 		list = append(list, other)
 	}
 	list = util.Shuffle(c.Rng, list)
-	eng := urlfilter.NewEngine(util.StorageSplit(c.Rng, list))
+	storage := util.StorageSplit(c.Rng, list)
+	if c.Rng.Intn(3) == 0 {
+		// The network rules in a list that is loaded without its cosmetic rules
+		// (IgnoreCosmetic), the cosmetic rules in another one: which options a
+		// verdict switches off does not depend on where the rules live.
+		var netLines, cosLines []string
+		for _, l := range list {
+			if strings.Contains(l, "##") {
+				cosLines = append(cosLines, l)
+			} else {
+				netLines = append(netLines, l)
+			}
+		}
+		if s, serr := filterlist.NewRuleStorage([]filterlist.RuleList{
+			&filterlist.StringRuleList{ID: 0, RulesText: util.Lines(netLines), IgnoreCosmetic: true},
+			&filterlist.StringRuleList{ID: 1, RulesText: util.Lines(cosLines)},
+		}); serr == nil {
+			storage = s
+		}
+	}
+	eng := urlfilter.NewEngine(storage)
 	req := rules.NewRequest("http://example.org/", "", rules.TypeDocument)
 	res := eng.MatchRequest(req)
 	got := res.GetCosmeticOption()
 	judge("Engine.MatchRequest", got)
-	for _, src := range []string{"http://example.org/", "http://example.org/other/page"} {
+	srcs := []string{"http://example.org/", "http://example.org/other/page"}
+	if !strings.Contains(other, "domain=") {
+		// (capital letters in the referrer; $domain values are compared as written)
+		srcs = append(srcs, "HTTP://EXAMPLE.org/Other")
+	}
+	for _, src := range srcs {
 		judge("Engine.MatchRequest(with referrer)", eng.MatchRequest(rules.NewRequest("http://example.org/", src, rules.TypeDocument)).GetCosmeticOption())
 	}
 	judge("Engine.MatchRequest(unrelated source)", eng.MatchRequest(rules.NewRequest("http://example.org/", "http://unrelated.example.net/", rules.TypeDocument)).GetCosmeticOption())
